@@ -183,6 +183,10 @@ def run(ctx: Ctx, tier: str) -> Result:
                         if isinstance(a_, ast.If) and a_.orelse and all(any(paths.within(p, v2, blk_) for sf2, v2 in stores if sf2 is sf for blk_ in br)
                                                                         for br in (a_.body, a_.orelse)):
                             anchor_ = a_
+                    if installs and not any(ifi is sf for ifi, _ic, _ie in installs):
+                        ok = False
+                        why = "the hook is saved in %s, not where the agent's hook is installed (%s): what was current at that earlier moment is put back, " \
+                              "not what the agent replaced" % (sf.qname.rsplit(".", 1)[-1], installs[0][0].qname.rsplit(".", 1)[-1])
                     for ifi, icall, iext in installs:
                         if ifi is sf and not paths.dominates(p, anchor_, icall, sf):
                             ok = False
@@ -310,6 +314,25 @@ def run(ctx: Ctx, tier: str) -> Result:
         res.ok("C14.E", {"timer loop exits on the stop event": tgt.loc(waits[0])})
     else:
         res.fail(Finding("C14.E", tgt.qname, "<while not event.wait()>", tgt.loc(), "timer loop does not test the stop event"))
+    # what runs on the poll thread starts no further timer / thread of its own: shutdown can only stop what existed when
+    # it ran, something the poll in flight creates afterwards keeps polling once the agent is down
+    from .c01 import reachable
+    pollf = p.func("deep.poll.poll.LongPoll.poll")
+    spawned = []
+    scope_ = reachable(ctx, pollf)
+    for f_ in scope_:
+        if f_.module.name.startswith("deep.task"):
+            continue
+        for c_ in t.calls_in(f_):
+            tg_ = t.resolve_call(c_, f_)
+            if any(e in ("threading.Timer", "threading.Thread", "threading._start_new_thread", "_thread.start_new_thread") or e.endswith("Executor") for e in tg_.ext) \
+                    or any(k.qname == "deep.utils.RepeatedTimer" or any(b.endswith("Thread") or b.endswith("Timer") for b in k.ext_bases) for k in tg_.ctor):
+                spawned.append((f_, c_))
+    for f_, c_ in spawned:
+        res.fail(Finding("C14.E", f_.qname, c_, f_.loc(c_), "`%s` starts another timer / thread from the poll thread itself: one created by a poll that is in flight while "
+                         "shutdown runs is never stopped, the agent goes on polling after shutdown" % norm(c_)[:60]))
+    if not spawned:
+        res.ok("C14.E", {"the poll path starts no timer or thread of its own (functions)": len(scope_)})
     from .common import borrow
     borrow(ctx, res, tier, "c09", ("C09.A", "C09.D"), "C14.AFTER", "after shutdown nothing is delivered: work offered to the closed handler is refused, never run in place")
     return res
